@@ -30,6 +30,10 @@ CHECKS = {
          "TLC explores every interleaving of the transcribed parallel_for (no result slot written twice, at most T workers, termination under fairness, launches equal their sequential meaning), proves the slice partition for all n, T in the bound, and checks concurrent readers; executions of the REAL ThreadPool are recorded and validated by TLC as behaviours of the specification (trace validation, Prop level: any partition is accepted); real threads replay query streams against one world bitwise vs single-thread and under ThreadSanitizer; real gwb-grid outputs are byte-compared for -j 1..40.",
          "interleavings exhaustively only in the model (n <= 6/7, T <= 3/4); real schedules sampled; worlds without random models; " + NOTE,
          "TLA+/TLC (Pool.tla, Concurrent.tla) + trace validation of the real ThreadPool (PoolTrace.tla) + TSan + byte comparison"),
+ "C15": ("model_checking",
+         "Rng.tla models a world's engine position (doubles drawn) with the draw count of every query; TLC explores every query history up to the bound for every (feature type, random model, seed) and each history is replayed on three real worlds: seed through the constructor, the same seed through the file, another seed. After every query the twin replies are bitwise equal, the third differs, both engines equal a shadow mt19937 at seed + 2*pos words (binding the draw count), and orientations / sizes / compositions are valid.",
+         "histories of 2 (quick) / 3 + simulated 30 (thorough) queries over an 8-query alphabet, 11 worlds, 2-3 seeds; " + NOTE,
+         "TLA+/TLC (Rng.tla draw-count model) + replay on twin worlds with a shadow mt19937"),
  "C16": ("model_checking",
          "The refinement mapping from C / wrapper actions to World actions is stated in CApi.tla and checked by TLC on all argument combinations; every mapped pair of actions is executed side by side in one process and compared bitwise, with the seed observed through random models and the output directory through the files written.",
          "5 seeds incl. 2^31-1 and 2^32+5, null/non-null flag and directory; " + NOTE,
